@@ -121,8 +121,12 @@ func refSimple(nc int, d []byte) (contours [][]refPoint, instr []byte, ok bool) 
 // VerifH_C11_spec: SimpleGlyph.Decode (after removePadding, i.e. exactly what glyf.Decode delivers)
 // agrees with the reference decoder: same accept/reject, same points, same instructions.
 func VerifH_C11_spec() {
-	nc := verifChoose("nc", 3)
+	nc := verifChoose("nc", 4)
 	extra := verifChoose("extra", verifParam("maxextra", 5)+1)
+	if nc == 3 {
+		// three contours: the end point array already takes 6 bytes; keep the rest short
+		verifAssume(extra <= verifParam("maxextra3", 3))
+	}
 	n := 2*nc + 2 + extra
 	enc := verifBytes("enc", n)
 	maxPts := verifParam("maxpts", 4)
